@@ -162,7 +162,7 @@ pub fn run_cup(p: &Profile, cfg: &RunCfg) -> (RunOut, MonOut) {
         for e in 0..n {
             let key = format!("x#{e}");
             let mut w = lock(&world);
-            let mutation = w.draws.draw(&format!("{key}/mut"), 28);
+            let mutation = w.draws.draw(&format!("{key}/mut"), 30);
             // a handler is stateful in principle: sometimes the authentic exchange is verified
             // first and the tampered one right after it on the same handler
             let authentic_first = mutation != 0 && w.draws.draw(&format!("{key}/authentic_first"), 3) == 0;
@@ -400,6 +400,31 @@ pub fn run_cup(p: &Profile, cfg: &RunCfg) -> (RunOut, MonOut) {
                         }
                     }
                     "hex_digit_plus_sign".into()
+                }
+                28 => {
+                    // cut from the left: at any position, or exactly up to the colon (":<authentic hash>")
+                    if let Some(t) = etag.as_mut() {
+                        let cut = match (w.draws.draw(&format!("{key}/cut.kind"), 3), colon) {
+                            (0, Some(c)) => c,
+                            _ => 1 + w.draws.draw(&format!("{key}/cut.pos"), t.len().max(2) as u64 - 1) as usize,
+                        };
+                        t.drain(..cut.min(t.len()));
+                    }
+                    breaking = None; // cutting only the W/ of a weak form leaves an authentic quoted form
+                    "etag_cut_left".into()
+                }
+                29 => {
+                    // one half emptied, wrapper and colon kept: "<wrapper>:<hash>" or "<wrapper><sig>:"
+                    if let (Some(t), Some(c)) = (etag.as_mut(), colon) {
+                        let start = if t.starts_with(b"W/\"") { 3 } else if t.starts_with(b"\"") { 1 } else { 0 };
+                        let end = if start > 0 { t.len() - 1 } else { t.len() };
+                        if w.draws.draw(&format!("{key}/half"), 2) == 0 {
+                            t.drain(start..c);
+                        } else {
+                            t.drain(c + 1..end);
+                        }
+                    }
+                    "etag_half_emptied".into()
                 }
                 _ => {
                     // a further ':'-separated field appended to an authentic ETag (inside the wrapper)
